@@ -2,7 +2,7 @@
 job boundary, sites far from the read, allele key tag, and every kind of record that must NOT be counted),
 written with pysam, coordinate sorted and indexed.
 
-A BAM is described by a picklable/JSON-able spec  [variant, D, min_mq]:
+A BAM is described by a picklable/JSON-able spec  [variant, D, min_mq, layout]:
 
   variant 'core'  every record's site lies on its contig (0 <= DS < length)
           'edge'  core + read-1 records whose DS lies just outside the contig (-2, -1, length, length+1):
@@ -12,6 +12,7 @@ A BAM is described by a picklable/JSON-able spec  [variant, D, min_mq]:
           (or as far as the contig allows); the BAM is meant for max_fragment_size == D, so that the
           property's assumption  |DS - read span| <= max_fragment_size  holds for every record and is tight
   min_mq  the mapping-quality threshold the BAM is meant for (records at the threshold and one below it)
+  layout  index into LAYOUTS (contig names and lengths)
 
 records(spec) returns the abstract record list (dicts); every record carries `labels`, used only to explain
 a discrepancy (never by the oracle, which reads the BAM back).
@@ -22,7 +23,10 @@ import pysam
 
 from . import reads as R
 
-CONTIGS = [('c1', 500), ('c2', 330), ('c3', 60)]
+LAYOUTS = [
+    [('c1', 500), ('c2', 330), ('c3', 60)],              # multiple of every bin size / ragged end / shorter than two bins
+    [('k1', 600), ('k2', 251), ('k3', 249), ('k4', 50)],  # one past / one short of a bin multiple / exactly one bin
+]
 RL = 20                     # read length
 STEP = 50                   # every job boundary of every configuration is a multiple of this
 CELLS = ['cellA', 'cellB', 'cellC']
@@ -64,7 +68,7 @@ def _placements(site, length, D):
 
 
 def records(spec):
-    variant, D, min_mq = spec
+    variant, D, min_mq, layout = spec
     recs = []
     n = [0]
 
@@ -77,7 +81,7 @@ def records(spec):
         rec.update(kw)
         recs.append(rec)
 
-    for contig, length in CONTIGS:
+    for contig, length in LAYOUTS[layout]:
         # ---- plain countable records: every boundary-ish site x placement x strand
         for site in sites_of(length):
             for label, pos in _placements(site, length, D):
@@ -114,7 +118,7 @@ def records(spec):
 def write_bam(spec, path):
     """Write the BAM of `spec` to `path` (coordinate sorted, indexed). Returns the record list."""
     recs = records(spec)
-    hdr = R.header(CONTIGS)
+    hdr = R.header(LAYOUTS[spec[3]])
     unsorted = path + '.unsorted.bam'
     with pysam.AlignmentFile(unsorted, 'wb', header=hdr) as out:
         for rec in recs:
@@ -135,3 +139,18 @@ def write_bam(spec, path):
     os.unlink(unsorted)
     pysam.index(path)
     return recs
+
+
+class PropertyFilter:
+    """filter_function for get_binned_counts(R1, R2): the module's own documented record filter (read_counts)
+    configured as the property words it (read 1, not duplicate, not QC-failed, MAPQ >= threshold, not marked
+    as non-unique).  Picklable, so it crosses the process boundary of a real Pool."""
+
+    def __init__(self, min_mq):
+        self.min_mq = min_mq
+
+    def __call__(self, R1, R2):
+        from singlecellmultiomics.bamProcessing.bamBinCounts import read_counts
+        if R1 is None:
+            return False
+        return read_counts(R1, min_mq=self.min_mq, dedup=True, read1_only=True)
